@@ -489,4 +489,23 @@ theorem gen_conjectured_via_accessors (o : Options) (k bits n cr : Nat) (h : Ext
       (Gen.ProofOpts.num_queries o.numQueries) bits n cr = genConj o bits n cr :=
   genConj_via_accessors o k bits n cr h
 
+open C18G in
+/-- ★ `Context::new` as regenerated from air/src/proof/context.rs on this run accepts exactly the contexts
+    of `contextAccepted` (trace length and LDE domain size at most `u32::MAX`), for ALL arguments -/
+theorem gen_context_new_ok_eq (o : Options) (n : Nat) :
+    Gen.ProofContext.new_ok n o.blowup = contextAccepted o n :=
+  gen_context_new_ok o n
+
+open C18G in
+/-- ★ `Context::num_modulus_bits` as regenerated on this run (the loop over the reversed modulus bytes with
+    `leading_zeros`) is the bit length of the little-endian modulus and never panics, for every byte string a
+    proof can carry -/
+theorem gen_num_modulus_bits_eq_bitLength (bs : List Nat) (h : ∀ b ∈ bs, b < 256) (hl : bs.length ≤ 255) :
+    Gen.ProofContext.num_modulus_bits_ok bs = true ∧ Gen.ProofContext.num_modulus_bits bs = bitLen (leVal bs) :=
+  (gen_num_modulus_bits_ok_iff bs _ (by omega)).mp (numModulusBits_eq bs h (by unfold U32; omega))
+
+example : Gen.ProofContext.num_modulus_bits (Model.leBytes 8 Gen.F62.M) = 62 ∧
+    Gen.ProofContext.num_modulus_bits (Model.leBytes 8 Gen.F64.M) = 64 ∧
+    Gen.ProofContext.num_modulus_bits (Model.leBytes 16 Gen.F128.M) = 128 := by decide +kernel
+
 end C18
